@@ -54,6 +54,7 @@ META = dict(
 )
 
 WIDTH_INF = 10 ** 6
+FREE_FORM_LIMIT = 132      # the statement names the number; a style may only be narrower
 
 
 def _silence():
@@ -92,7 +93,8 @@ def first_diff(got, ref):
 
 KEYWORDS = {'where', 'if', 'call', 'allocate', 'deallocate', 'associate', 'use', 'data', 'print', 'write', 'select',
             'case', 'do', 'subroutine', 'function', 'module', 'real', 'integer', 'character', 'logical', 'type',
-            'forall', 'nullify', 'read', 'open', 'close', 'import', 'interface', 'procedure', 'else', 'end'}
+            'forall', 'nullify', 'read', 'open', 'close', 'import', 'interface', 'procedure', 'else', 'end', 'format',
+            'continue', 'inquire'}
 
 
 def stmt_kind(tokens):
@@ -101,6 +103,8 @@ def stmt_kind(tokens):
     t = tokens[0].lower()
     if t.startswith('!$'):
         return 'pragma'
+    if t.isdigit() and len(tokens) > 1:
+        return 'labelled ' + stmt_kind(tokens[1:])
     if t in KEYWORDS and not (len(tokens) > 1 and tokens[1] in ('=', '%', '=>')):
         if t in ('real', 'integer', 'character', 'logical', 'type') and '::' in tokens:
             return 'declaration'
@@ -149,10 +153,7 @@ def width_violations(text, width, original_comments=None):
 
 def width_signature(line):
     toks, _, _ = lx.line_payload(line)
-    classes = [tok_class(t) for t in toks]
-    longest = max(toks, key=len) if toks else ''
-    return f'over-long line with {"several" if len(toks) > 1 else "one"} tokens, longest a {tok_class(longest)}' \
-        if classes else 'over-long line'
+    return f'over-long line with {"several" if len(toks) > 1 else "one"} tokens'
 
 
 # =====================================================================================
@@ -415,7 +416,7 @@ def fam_defs(quick):
         'userename': (R(1, 16, 30), P(1, 7)),
         'namedif': (R(1, 12, 24), P(1, 5)),
         'format': (R(1, 24, 40), P(1, 5)),
-        'openstmt': (R(1, 16, 24), P(1, 3)),
+        'openstmt': (R(1, 40, 60), P(1, 3)),
         'stmtfunc': (R(1, 16, 30), P(1, 5)),
     }
     for ctx in ('assign', 'concat', 'callarg', 'print'):
@@ -609,8 +610,8 @@ def gen_units(family, ns, pad, seed):
                 body.append('end do' if k % 2 == 0 else 'end if')
     elif family == 'forall':
         for n in ns:
-            body += [mark(n), f'forall (i = 1:n, arr(i) > {_expr(max(1, n // 2), n)}) '
-                              f'arr(i) = {lhs}*0.0_jprb + {_expr(n, n + 1)}']
+            body += [mark(n), f'forall (i = 1:n, arr(i) > {_expr(max(1, n // 2), n)}) '.replace('fn(a, bb)', 'min(a, bb)') +
+                     f'arr(i) = {lhs}*0.0_jprb + {_expr(n, n + 1)}'.replace('fn(a, bb)', 'min(a, bb)')]
         if pad:
             body.insert(0, f'{lhs} = 1.0_jprb')
     elif family == 'elsewhere':
@@ -667,8 +668,8 @@ def gen_units(family, ns, pad, seed):
     elif family == 'openstmt':
         specs = ["file='some file name.dat'", "form='unformatted'", "access='stream'", "status='unknown'",
                  "action='readwrite'", "position='asis'", 'iostat=i', 'iomsg=s']
-        for n in ns:
-            body += [mark(n), f"open(unit=10 + {10 ** pad}, {', '.join(specs[k % len(specs)] for k in range(n))})"]
+        for L in ns:
+            body += [mark(L), f"open(unit=10 + {10 ** pad}, " + ', '.join(specs).replace('some file name', ('some file name ' * 8)[:L]) + ')']
     elif family == 'stmtfunc':
         for n in ns:
             names = [f'x{sp[2]}{k}_{n}' for k in range(1, n + 1)]
@@ -714,7 +715,7 @@ def render(source, style_name, sf=None):
     sf = sf or parse(source)
     wrapped = sf.to_fortran(style=cls())
     ref = sf.to_fortran(style=cls(linewidth=WIDTH_INF))
-    return wrapped, ref, cls().linewidth
+    return wrapped, ref, min(cls().linewidth, FREE_FORM_LIMIT)
 
 
 def split_cases(text):
@@ -756,7 +757,8 @@ def l2_judge_text(wrapped, ref, width, source):
                 break
     for ln, line, why in width_violations(wrapped, width, orig_comments):
         n, st = line_case.get(ln, (None, None))
-        res.setdefault(n, []).append((f'wrap leaves {width_signature(line)}',
+        kind = stmt_kind(lx.statement_tokens(st)) if st is not None else 'unknown'
+        res.setdefault(n, []).append((f'wrap leaves {width_signature(line)} in {kind} statement',
                                       f'line has {len(line)} > {width} columns ({why}): {line.strip()[:160]!r}'))
     nwrapped = {n: sum(1 for st in sts if len(st['lines']) > 1) for n, sts in gw.items()}
     overlong = {}
